@@ -47,6 +47,7 @@ def run(ctx):
                "storage object and provider objects", "storage backend: MockStorage fixture behind a counting wrapper",
                "MockProvider flavours are the environment; virtual clock; ageing 0")
     ctx.model_check("SysMC", "MC_SysMC.cfg", "design: contract guards", workers=4)
+    sc.run_exemplars(ctx, CLAUSES, extra_sig=xsig, accept=accept)
     quick = ctx.tier == "quick"
     flavors = ["oid/oid", "path/oidf"] if quick else ["oid/oid", "path/oidf", "oidf/path", "path/path"]
     base = sc.generate(ctx, "k_one", [1], 2, GAPS, "std") + sc.generate(ctx, "k_oneR", [2], 2, GAPS, "std")
